@@ -281,3 +281,15 @@ _EDITS8 = [
 for _k, _a, _b in _EDITS8:
     assert _a in TEXTS[_k][0], (_k, _a[:40])
     TEXTS[_k] = (TEXTS[_k][0].replace(_a, _b, 1), TEXTS[_k][1])
+
+_EDITS9 = [
+ ("C09", "Kernel-checked theorems", "Kernel-checked theorems (incl., at the system level: for every state in which a thread lives and every history in which it does not exit -- any ring "
+  "capacity, any interleaving of calls, single pushes and collector pops of any threads -- the control commands (start, cancel, commit) popped out of its ring followed by those still in "
+  "flight are, as a sequence, those in flight at the beginning followed by those its calls emitted since: none dropped, duplicated or reordered; every one of the 31 calls marks exactly its "
+  "control commands as forced)"),
+ ("C04", "Kernel-checked theorems", "Kernel-checked theorems (incl., over the scheduler: a cancel that is in a registered thread's ring when a cycle begins, cancelable configuration, any "
+  "reachable state, any interleaving of the drain with the threads: that cycle's report carries no record produced for the trace, whatever else it drains, and the trace is inactive afterwards)"),
+]
+for _k, _a, _b in _EDITS9:
+    assert _a in TEXTS[_k][0], (_k, _a[:40], TEXTS[_k][0][:200])
+    TEXTS[_k] = (TEXTS[_k][0].replace(_a, _b, 1), TEXTS[_k][1])
